@@ -51,7 +51,7 @@ var (
 	swBackoff = []time.Duration{250 * time.Millisecond, 1 * time.Millisecond}
 	swFactor  = []float64{2, 10, 1}
 	swJitter  = []float64{0, 0.1, 0.5, 1}
-	swBounds  = []wbounds{{200 * time.Millisecond, 3 * time.Second}, {0, 0}, {3 * time.Second, 200 * time.Millisecond}}
+	swBounds  = []wbounds{{200 * time.Millisecond, 3 * time.Second}, {0, 0}, {3 * time.Second, 200 * time.Millisecond}, {2 * time.Second, 10 * time.Second}} // the last: MinWait above a Retry-After of one second
 	swMaxRet  = []int{71, 3, 0}
 )
 
